@@ -47,7 +47,7 @@ func newMergeFixture(scratch string) (*mergeFixture, error) {
 			name := fmt.Sprintf("%d_%02d.sst", t, sub)
 			b, err := table.NewStoreBuilder(table.FileNumber(t*nsub+sub), filepath.Join(m.dir, name))
 			if err != nil {
-				vevid.Fatal("merge fixture builder: %v", err)
+				vevid.OpFailed("merge fixture builder: %v", err)
 			}
 			for _, k := range ks {
 				if err := b.Add(k, mergeValue(t, k)); err != nil {
